@@ -133,6 +133,9 @@ def _run_sampler(sampler, case, pbn, points_fn, spectrum):
             opt.compute_fit()
         opt.set_observed(obs)
         dr.configure(opt, p.model, case['fitted'], case['priors'])      # the new observation's own parameters
+    for g in case.get('ghost', []):
+        # a prior registered for a parameter that is not fitted (left over from an earlier set-up): it takes no part
+        opt.set_prior(g, dr.PARAMS[g]['priors']['loguniform' if g != 'obs_offset' else 'gaussian'].taurex())
     plan = ds.Plan()
     with _silent(), ds.active(plan):
         opt.compile_params()
@@ -352,9 +355,12 @@ def subsets(tp):
     return out
 
 
-def _case(tp, fitted, priors=None, layout='3col-uniform', errors='distinct', obsval='offset'):
-    return {'tp': tp, 'fitted': list(fitted), 'priors': dict(priors or {}), 'layout': layout,
-            'errors': errors, 'obsval': obsval}
+def _case(tp, fitted, priors=None, layout='3col-uniform', errors='distinct', obsval='offset', ghost=None):
+    c = {'tp': tp, 'fitted': list(fitted), 'priors': dict(priors or {}), 'layout': layout,
+         'errors': errors, 'obsval': obsval}
+    if ghost:
+        c['ghost'] = list(ghost)
+    return c
 
 
 def _prior_products(fitted):
@@ -395,6 +401,10 @@ def explore(ctx):
                     for l in dr.PARAMS[nm]['priors']:
                         if l != 'default':
                             add(_case(tp, s, {nm: l}))
+    # a prior registered on a parameter that is not fitted, before / between / after the fitted ones
+    for g in (['planet_radius'], ['H2O'], ['clouds_pressure'], ['planet_radius', 'clouds_pressure']):
+        add(_case('iso', ['T', 'CH4'], {'CH4': 'uniform'}, ghost=g))
+        add(_case('iso', ['T', 'CH4', 'obs_offset'], None, ghost=g))
     # observation: layout x errors x value
     for lay, err, ov in itertools.product(dr.LAYOUTS, ['distinct', 'constant'], ['offset', 'exact']):
         add(_case('iso', ['T', 'H2O'], None, lay, err, ov))
